@@ -315,7 +315,16 @@ TraceEvSpec(r) ==
      /\ UNCHANGED <<cells, game, net, inbox, now, alive, dups>>
      /\ Note(r, IF res[2] # r.ev THEN {<<"ev">>} ELSE {})
 
+IsPanicLine(r) == Has(r, "r") /\ PanicStr(r.r)
 Skip == UNCHANGED sysvars /\ UNCHANGED drift
+
+\* network_stats: a pure query; result and figures must be what the specification computes
+TraceStats(r) ==
+  LET p   == r.p
+      res == IF p \in SpecIds THEN EP_NetworkStats(ss[p].host, now) ELSE P2P_NetworkStats(ss[p], r.h, now)
+      bad == (res[1] # r.r) \/ (res[1] = "ok" /\ Has(r, "ns") /\ res[2] # r.ns)
+  IN /\ UNCHANGED sysvars
+     /\ Note(r, IF bad THEN {<<"stats", res>>} ELSE {})
 
 TraceInit == Init /\ l = 2 /\ drift = <<>>
 
@@ -329,7 +338,7 @@ TraceNext ==
         ELSE CASE r.a = "tick" /\ spec -> TraceTickSpec(r)
                [] r.a = "poll" /\ spec -> TracePollSpec(r)
                [] r.a = "ev" /\ spec   -> TraceEvSpec(r)
-               [] r.a = "stats" -> Skip
+               [] r.a = "stats" -> IF IsPanicLine(r) THEN Skip ELSE TraceStats(r)
                [] r.a = "tick" /\ Has(r, "wait") -> TraceTickW(r)
                [] r.a = "tick" -> TraceTick(r)
                [] r.a = "poll" -> TracePoll(r)
